@@ -1,6 +1,7 @@
 """C14 — baseline removal, normalisation, resampling and alignment laws."""
 import random
 from gen import *
+from common import rstr
 from gen_proc import *
 from oracles import BaselineOracle, ConsistencyOracle
 from propbase import StreamProperty
@@ -51,6 +52,23 @@ def streams(tier, seed):
                 out.append([b, op_trace_local(b, dim, "remove_background",
                                               {"deg": deg, "regions": None if regs is None else [[str(x), str(y)] for x, y in regs]},
                                               fn, "remove_background", ["deg", "dim", "func", "regions"])])
+                if "," in str(b["values"][0]) and len(shape) >= 2 and regs is None:
+                    # a complex object in which SOME traces are real (zero imaginary part) next to traces with an imaginary
+                    # background: every trace is fitted on its own
+                    b2 = dict(b, values=list(b["values"]))
+                    other = 1
+                    for d_, e_ in zip(dims, shape):
+                        if d_ != dim:
+                            other *= e_
+                    vals2 = np.array([complex(*[float(Fraction(p)) for p in v.split(",")]) if "," in v else float(Fraction(v)) for v in b2["values"]],
+                                     dtype=complex).reshape(shape)
+                    mv = np.moveaxis(vals2, k, 0).reshape(n, other).copy()
+                    for j in range(1, other, 2):
+                        mv[:, j] = mv[:, j].real
+                    vals2 = np.moveaxis(mv.reshape([n] + [e_ for d_, e_ in zip(dims, shape) if d_ != dim]), 0, k)
+                    b2["values"] = ["%s,%s" % (rstr(z.real), rstr(z.imag)) for z in vals2.reshape(-1)]
+                    out.append([b2, op_trace_local(b2, dim, "remove_background",
+                                                   {"deg": deg, "regions": None}, fn, "remove_background", ["deg", "dim", "func", "regions"])])
             r = uniform_new(rng, 0, dims, shape, dim, cplx=False, rand_values=True)
             out.append([r, op_simple("normalize", r, dim=dim)])
             out.append([r, op_simple("normalize", r, dim=None)])
